@@ -3250,6 +3250,12 @@ func (p *Posix) DeleteObject(ctx context.Context, input *s3.DeleteObjectInput) (
 					return nil, fmt.Errorf("remove obj version: %w", err)
 				}
 				verifhook.At("delv.removed", "path", objpath)
+				// with the sidecar store the attributes do not go away with
+				// the file: the version promoted below must not inherit them
+				err = p.meta.DeleteAttributes(bucket, object)
+				if err != nil {
+					return nil, fmt.Errorf("delete object attributes: %w", err)
+				}
 
 				ents, err := os.ReadDir(versionPath)
 				if errors.Is(err, fs.ErrNotExist) {
